@@ -726,7 +726,7 @@ theorem select_derivable {s : Select} {o : Option OrderBy} {l : Option Limit} (h
     cases l with
     | none => exact Opt.none
     | some l => exact Opt.some (limitD_y l)
-  have key := QueryD.mk s.trailing (aodD_y s.aod) (sepBy_items s.first s.more hi him) hfr hwh hgr hha hor hli (by
+  have key : QueryD _ := QueryG.mk s.trailing (aodD_y s.aod) (sepBy_items s.first s.more hi him) hfr hwh hgr hha hor hli (by
     intro htr
     rcases ht htr with h | ⟨h1, h2, h3, h4, h5⟩
     · exact Or.inl (yFrom_ne_nil h)
